@@ -425,9 +425,11 @@ def front_decisions(enc, prob, q):
     return numpy.array(out, dtype=dt)
 
 
-def make_given_front(enc, objs):
+def make_given_front(enc, objs, cv=None):
     """Stub multi-objective optimiser returning a GIVEN (non-dominated) objective set attached to q distinct
-    decisions of the problem's shape, whatever the problem."""
+    decisions of the problem's shape, whatever the problem.  cv (optional): per-member constraint violation reported
+    unfiltered in the first inequality and/or equality column the problem declares (as the library's own sorting
+    optimiser documents: violations are reported, not used to filter)."""
     A, S = _enc_classes(enc)
     objs = numpy.asarray(objs, dtype=float)
 
@@ -445,7 +447,15 @@ def make_given_front(enc, objs):
             if decns is None:
                 raise NoFront(f"decision space too small for {q} distinct decisions")
             self.decns = decns.copy()
-            self.last = _solution(S, prob, decns, objs.copy(), numpy.zeros((q, prob.nineqcv)), numpy.zeros((q, prob.neqcv)))
+            ineq = numpy.zeros((q, prob.nineqcv))
+            eq = numpy.zeros((q, prob.neqcv))
+            if cv is not None:
+                if prob.nineqcv:
+                    ineq[:, 0] = cv
+                if prob.neqcv:
+                    eq[:, -1] = cv
+            self.cv = (ineq.copy(), eq.copy())
+            self.last = _solution(S, prob, decns, objs.copy(), ineq, eq)
             self.last_prob = prob
             return self.last
 
